@@ -135,6 +135,8 @@ def gen_place(rng, market, upd, mix, n_trades):
         a["ctx"] = True
     if n_trades and rng.random() < mix["p_same_trade"]:
         a["trade"] = rng.randint(0, n_trades - 1)
+        if mix.get("p_reuse_done") and rng.random() < mix["p_reuse_done"]:
+            a["reuse_done"] = True  # also when that trade has completed: a re-used trade
     prs = rng.choice(mix["prs"])
     rs = rng.choice(mix["rs"])
     if prs:
